@@ -752,11 +752,18 @@ func (tm *TaskMaster) forkPoint(p edge.PointMessage) {
 	}
 
 	// Merge the results to the forks map
-	for _, edge := range tm.forks[key] {
+	measurementForks := tm.forks[key]
+	for _, edge := range measurementForks {
 		_ = edge.Collect(p)
 	}
 
-	for _, edge := range tm.forks[emptyMeasurementKey] {
+	// A task with both a from() node that names this measurement and one that
+	// names none is registered under both keys with the same edge:
+	// it must still receive the point only once.
+	for id, edge := range tm.forks[emptyMeasurementKey] {
+		if _, ok := measurementForks[id]; ok {
+			continue
+		}
 		_ = edge.Collect(p)
 	}
 
